@@ -16,7 +16,9 @@ def _one(prop, start, count):
 def selftest(n_total, jobs):
     from . import lib                                   # noqa: F401
     from .cases import RUNTIME_PROPS
+    from .hcases import HISTORY_PROPS
     from .driver import seed_base
+    RUNTIME_PROPS = tuple(RUNTIME_PROPS) + tuple(HISTORY_PROPS)
     per_prop = max(8, n_total // len(RUNTIME_PROPS))
     chunk = max(4, per_prop // 4)
     ctx = multiprocessing.get_context('fork')
